@@ -27,6 +27,39 @@ def self_field(o):
 OVERLAYS = ('K2b',)
 
 
+def setup_before_begin_rule(chk, P, key):
+    """Shared with C18 and C20 (a `setup` that makes an incoming traceparent current, or initialises the runtime slot, must have run before the span
+    reads the ambient ids / evaluates its runtime)."""
+    def setup_before_begin():
+        """`#[emit::span(setup: ..)]`: the code the macro generates runs the setup closure *before* it begins the span - begin_span reads the
+        ambient ids (and snapshots the frame), so incoming ids the setup puts in the context must already be there.  In both arms of the
+        macro the setup tokens are spliced into the output ahead of the `__private_begin_span` call."""
+        ev = []
+        for fn in ("inject_sync", "inject_async"):
+            k = "emit_macros::span::" + fn
+            if not P.has_body(k):
+                raise mir.AnchorMissing(k)
+            b = P.body(k)
+            # the setup parameter by position in the (shared) signature of the two arms: the Option<TokenStream> that is neither first nor last ...
+            idx = [i + 1 for i in range(b.argc) if b.local_name(i + 1) == "setup_tokens"]
+            if not idx:
+                idx = [7] if b.argc >= 7 else []
+            if not idx:
+                raise mir.AnchorMissing("the setup parameter of %s" % fn)
+            A = [c for c in b.calls(normal_only=True) if c.callee.get("name") == "to_tokens" and
+                 any(l[0] == "param" and l[1] == b.key and l[2] == idx[0] for l in common.deep_roots(P, b, b.origin(c.args[0])))]
+            B = [c for c in b.calls(normal_only=True) if c.callee.get("name") == "push_ident" and mir.o_const_value(b.origin(c.args[1])) == "__private_begin_span"]
+            if len(A) != 1 or len(B) != 1:
+                return False, "%s splices the setup tokens %d times and begins the span %d times (expected once each)" % (fn, len(A), len(B)), [], b.span
+            if not b.dominates(A[0].bb, B[0].bb) or A[0].bb == B[0].bb:
+                return False, ("%s emits the `setup` code after `__private_begin_span(..)`: the span is begun (ambient ids read, frame snapshotted) before "
+                               "the setup has put the incoming ids into the context, so it starts a fresh trace and hides the incoming ids from its body" % fn), \
+                    [], A[0].loc
+            ev += [A[0].loc, B[0].loc]
+        return True, "", ev
+    chk.ob(key, "the span macro runs `setup` before it begins the span, in both the sync and the async arm", setup_before_begin)
+
+
 def run(chk):
     P = mir.Program("K1")
     chk.use_program(P)
@@ -519,35 +552,9 @@ def run(chk):
         # drops the trace id of `props! { trace_id, span_id: None }` (shared with C02)
         from . import c02
         c02.no_truncating_adaptors_rule(chk, P, "C04.R5:no-truncating-adaptors")
+        c02.loop_exit_rule(chk, P, "C04.R5:loop-exits")
 
-    def setup_before_begin():
-        """`#[emit::span(setup: ..)]`: the code the macro generates runs the setup closure *before* it begins the span - begin_span reads the
-        ambient ids (and snapshots the frame), so incoming ids the setup puts in the context must already be there.  In both arms of the
-        macro the setup tokens are spliced into the output ahead of the `__private_begin_span` call."""
-        ev = []
-        for fn in ("inject_sync", "inject_async"):
-            k = "emit_macros::span::" + fn
-            if not P.has_body(k):
-                raise mir.AnchorMissing(k)
-            b = P.body(k)
-            # the setup parameter by position in the (shared) signature of the two arms: the Option<TokenStream> that is neither first nor last ...
-            idx = [i + 1 for i in range(b.argc) if b.local_name(i + 1) == "setup_tokens"]
-            if not idx:
-                idx = [7] if b.argc >= 7 else []
-            if not idx:
-                raise mir.AnchorMissing("the setup parameter of %s" % fn)
-            A = [c for c in b.calls(normal_only=True) if c.callee.get("name") == "to_tokens" and
-                 any(l[0] == "param" and l[1] == b.key and l[2] == idx[0] for l in common.deep_roots(P, b, b.origin(c.args[0])))]
-            B = [c for c in b.calls(normal_only=True) if c.callee.get("name") == "push_ident" and mir.o_const_value(b.origin(c.args[1])) == "__private_begin_span"]
-            if len(A) != 1 or len(B) != 1:
-                return False, "%s splices the setup tokens %d times and begins the span %d times (expected once each)" % (fn, len(A), len(B)), [], b.span
-            if not b.dominates(A[0].bb, B[0].bb) or A[0].bb == B[0].bb:
-                return False, ("%s emits the `setup` code after `__private_begin_span(..)`: the span is begun (ambient ids read, frame snapshotted) before "
-                               "the setup has put the incoming ids into the context, so it starts a fresh trace and hides the incoming ids from its body" % fn), \
-                    [], A[0].loc
-            ev += [A[0].loc, B[0].loc]
-        return True, "", ev
-    chk.ob("C04.S4.macro:setup-before-begin", "the span macro runs `setup` before it begins the span, in both the sync and the async arm", setup_before_begin)
+    setup_before_begin_rule(chk, P, "C04.S4.macro:setup-before-begin")
     common.arg_agreement_rule(chk, P, "C04", [("emit", "src/span.rs"), ("emit", "src/macro_hooks.rs"),
                                                ("emit_macros", "src/span.rs"), ("emit", "src/frame.rs")], 20)
     if True:
